@@ -232,9 +232,9 @@ theories/Proofs/Zip.vos theories/Proofs/Zip.vok theories/Proofs/Zip.required_vos
 theories/Proofs/ZipBase.vo theories/Proofs/ZipBase.glob theories/Proofs/ZipBase.v.beautified theories/Proofs/ZipBase.required_vo: theories/Proofs/ZipBase.v theories/Model/Crc32.vo theories/Model/Zip.vo
 theories/Proofs/ZipBase.vio: theories/Proofs/ZipBase.v theories/Model/Crc32.vio theories/Model/Zip.vio
 theories/Proofs/ZipBase.vos theories/Proofs/ZipBase.vok theories/Proofs/ZipBase.required_vos: theories/Proofs/ZipBase.v theories/Model/Crc32.vos theories/Model/Zip.vos
-theories/Properties/C01.vo theories/Properties/C01.glob theories/Properties/C01.v.beautified theories/Properties/C01.required_vo: theories/Properties/C01.v theories/Base/Sx.vo theories/Model/ArgTypes.vo theories/Model/Args.vo theories/Gen/C01ArgTables.vo theories/Model/ArgsInst.vo theories/Proofs/Args.vo theories/Proofs/ArgTables.vo
-theories/Properties/C01.vio: theories/Properties/C01.v theories/Base/Sx.vio theories/Model/ArgTypes.vio theories/Model/Args.vio theories/Gen/C01ArgTables.vio theories/Model/ArgsInst.vio theories/Proofs/Args.vio theories/Proofs/ArgTables.vio
-theories/Properties/C01.vos theories/Properties/C01.vok theories/Properties/C01.required_vos: theories/Properties/C01.v theories/Base/Sx.vos theories/Model/ArgTypes.vos theories/Model/Args.vos theories/Gen/C01ArgTables.vos theories/Model/ArgsInst.vos theories/Proofs/Args.vos theories/Proofs/ArgTables.vos
+theories/Properties/C01.vo theories/Properties/C01.glob theories/Properties/C01.v.beautified theories/Properties/C01.required_vo: theories/Properties/C01.v theories/Base/Sx.vo theories/Model/ArgTypes.vo theories/Model/Args.vo theories/Gen/C01ArgTables.vo theories/Model/ArgsInst.vo theories/Proofs/Args.vo theories/Proofs/ArgTables.vo theories/Model/Stats.vo theories/Model/ReqSM.vo theories/Proofs/ReqSM.vo theories/Proofs/ArgsReq.vo
+theories/Properties/C01.vio: theories/Properties/C01.v theories/Base/Sx.vio theories/Model/ArgTypes.vio theories/Model/Args.vio theories/Gen/C01ArgTables.vio theories/Model/ArgsInst.vio theories/Proofs/Args.vio theories/Proofs/ArgTables.vio theories/Model/Stats.vio theories/Model/ReqSM.vio theories/Proofs/ReqSM.vio theories/Proofs/ArgsReq.vio
+theories/Properties/C01.vos theories/Properties/C01.vok theories/Properties/C01.required_vos: theories/Properties/C01.v theories/Base/Sx.vos theories/Model/ArgTypes.vos theories/Model/Args.vos theories/Gen/C01ArgTables.vos theories/Model/ArgsInst.vos theories/Proofs/Args.vos theories/Proofs/ArgTables.vos theories/Model/Stats.vos theories/Model/ReqSM.vos theories/Proofs/ReqSM.vos theories/Proofs/ArgsReq.vos
 theories/Properties/C02.vo theories/Properties/C02.glob theories/Properties/C02.v.beautified theories/Properties/C02.required_vo: theories/Properties/C02.v theories/Base/Sx.vo theories/Model/KeyEnc.vo theories/Proofs/KeyEnc.vo theories/Proofs/KeyEncSpec.vo theories/Gen/C02HashSpec.vo theories/Gen/C02HashSpec_ok.vo
 theories/Properties/C02.vio: theories/Properties/C02.v theories/Base/Sx.vio theories/Model/KeyEnc.vio theories/Proofs/KeyEnc.vio theories/Proofs/KeyEncSpec.vio theories/Gen/C02HashSpec.vio theories/Gen/C02HashSpec_ok.vio
 theories/Properties/C02.vos theories/Properties/C02.vok theories/Properties/C02.required_vos: theories/Properties/C02.v theories/Base/Sx.vos theories/Model/KeyEnc.vos theories/Proofs/KeyEnc.vos theories/Proofs/KeyEncSpec.vos theories/Gen/C02HashSpec.vos theories/Gen/C02HashSpec_ok.vos
